@@ -204,12 +204,75 @@ impl Case {
     }
 }
 
+/// xlsb: every cell record of the first sheet part gets an EARLIER record at the same position with another value
+/// (a BrtCellReal): "the last record of a cell wins" — whatever the header row. `None` when the part cannot be taken
+/// apart.
+fn xlsb_with_overwritten_cells(bytes: &[u8]) -> Option<Vec<u8>> {
+    use std::io::{Cursor, Read, Write};
+    let mut z = zip::ZipArchive::new(Cursor::new(bytes)).ok()?;
+    let mut parts: Vec<(String, Vec<u8>)> = vec![];
+    for i in 0..z.len() {
+        let mut f = z.by_index(i).ok()?;
+        let mut v = vec![];
+        f.read_to_end(&mut v).ok()?;
+        parts.push((f.name().to_string(), v));
+    }
+    let pi = parts.iter().position(|(n, _)| n.contains("sheet") && n.ends_with(".bin"))?;
+    let part = parts[pi].1.clone();
+    let mut out = vec![];
+    let mut o = 0;
+    while o < part.len() {
+        let start = o;
+        let b0 = *part.get(o)? as u16;
+        o += 1;
+        let id = if b0 & 0x80 != 0 {
+            let b1 = *part.get(o)? as u16;
+            o += 1;
+            (b0 & 0x7F) | ((b1 & 0x7F) << 7)
+        } else {
+            b0
+        };
+        let mut len = 0usize;
+        for k in 0..4 {
+            let x = *part.get(o)? as usize;
+            o += 1;
+            len |= (x & 0x7F) << (7 * k);
+            if x & 0x80 == 0 {
+                break;
+            }
+        }
+        let payload = part.get(o..o + len)?;
+        // the value-bearing cell records: BrtCellRk 2, Error 3, Bool 4, Real 5, St 6, Isst 7, FmlaString 8 … FmlaError 11
+        if (2..=11).contains(&id) && len >= 8 {
+            out.extend_from_slice(&[0x05, 0x10]);
+            out.extend_from_slice(&payload[..8]);
+            out.extend_from_slice(&(-4242.25f64).to_le_bytes());
+        }
+        o += len;
+        out.extend_from_slice(&part[start..o]);
+    }
+    parts[pi].1 = out;
+    let mut w = zip::ZipWriter::new(Cursor::new(Vec::new()));
+    for (n, d) in &parts {
+        let opt = zip::write::SimpleFileOptions::default().compression_method(zip::CompressionMethod::Deflated);
+        w.start_file(n.as_str(), opt).ok()?;
+        w.write_all(d).ok()?;
+    }
+    w.finish().ok().map(|c| c.into_inner())
+}
+
 /// returns failures (kind, sig, impl, model, expect)
 fn run_case(case: &Case, drv: &mut Driver, rep: &mut Report) -> Vec<(String, String, String, String, String)> {
     let mut fails = vec![];
     let fmt = case.fmt;
     let book = wb::LBook { sheets: vec![case.sheet.clone()] };
-    let bytes = wb::write(&book, fmt, &mut Rng::new(case.seed));
+    let mut bytes = wb::write(&book, fmt, &mut Rng::new(case.seed));
+    if fmt == Fmt::Xlsb && case.seed % 3 == 1 {
+        if let Some(b) = xlsb_with_overwritten_cells(&bytes) {
+            rep.count("xlsb.overwritten-cells");
+            bytes = b;
+        }
+    }
     // xls also takes the option at construction (`XlsOptions::header_row`): one case in three opens that way,
     // so that "changing the option affects only subsequent reads and can be changed back" is exercised from there
     let opened = if fmt == Fmt::Xls && case.seed % 3 == 0 && !case.options.is_empty() {
